@@ -46,7 +46,7 @@ def sig_tie(r, n):
                 unc += 1
             else:
                 mism.append(cases[si * shard + ints[i]])
-    classes = {0: 0, 1: 0, 2: 0, 3: 0}
+    classes = {0: 0, 1: 0, 2: 0, 3: 0, 4: 0}
     asm_bad = 0
     for si, (rc2, o) in enumerate(res[nsig:]):
         if rc2 != 0:
@@ -59,7 +59,9 @@ def sig_tie(r, n):
     r.coverage["tie_sig"] = {"kind": "V", "nodes": len(cases), "mismatches": len(mism), "not_covered_by_model": unc,
                              "stored_sig_differs_from_inferred": sum(1 for c in cases if c["stored"] and c["rust"] and c["stored"] != c["rust"]),
                              "programs": len(progs), "programs_function_table_ok": len(progs) - asm_bad,
-                             "root_inside_theorem_premises": classes[0], "root_has_unproved_modifier": classes[1],
+                             "root_inside_theorem_premises_and_fully_modelled": classes[0],
+                             "root_inside_premises_but_uses_constructs_outside_the_interpreter_model": classes[4],
+                             "root_has_unproved_modifier": classes[1],
                              "root_stored_sig_misfit": classes[2], "root_uncovered_operand": classes[3],
                              "node_kinds": (summ[0]["kinds"] if summ else {})}
     r.log("sig tie: %d nodes, %d mismatches, %d uncovered; %d programs: classes %s, function tables failing the invariant %d"
